@@ -83,6 +83,11 @@ class C01(Prop):
                 yield {"k": "mul", "a": ops[2 * t], "b": ops[2 * t + 1]}
             yield {"k": "table", "as": ops[:8], "bs": ops[8:20]}
             yield {"k": "table", "as": ops[:10], "bs": ops[:10], "pkg": "py"}
+        # large batched products with two different factors (L1 * L2 * N beyond 2^16 and 2^17 elements per temporary)
+        for n, l1, l2 in ((4, 120, 150), (7, 100, 110), (4, 150, 120)):
+            a_ = [[rng.randrange(4) for _ in range(n)] + [rng.randrange(4)] for _ in range(l1)]
+            b_ = [[rng.randrange(4) for _ in range(n)] + [rng.randrange(4)] for _ in range(l2)]
+            yield {"k": "table", "as": a_, "bs": b_}
         # element types of the user's arrays: bits as uint8 / int8 / int32 / uint64 / float64, phases likewise.  A refusal
         # (exception) is accepted; a product that is returned must be the product
         for n in (1, 2):
